@@ -290,7 +290,7 @@ func (s *CommitStateDB) Reset() {
 func (s *CommitStateDB) CreateAccount(addr ethcmn.Address) {
 	newObj, prev := s.createObject(addr)
 	if prev != nil {
-		newObj.SetBalance(prev.account.Balance())
+		newObj.setBalance(prev.account.Balance())
 	}
 }
 
